@@ -264,14 +264,18 @@ func (g *randomGen) genFile(idx, pkg int) {
 			fd.Extension = append(fd.Extension, ext)
 		}
 	}
-	if !proto2 && g.opts.Services && t.Chance("rs.service", 1, 4) && len(tops) > 0 {
+	svcDen := 4
+	if g.forceImports && g.opts.Tag == "" {
+		svcDen = 2 // files that see several packages: services whose types come from more than one of them
+	}
+	if !proto2 && g.opts.Services && t.Chance("rs.service", 1, svcDen) && len(tops) > 0 {
 		nsvc := 1 + t.Draw("rs.nsvc", 2)
 		for si := 0; si < nsvc; si++ {
 			svc := &descriptorpb.ServiceDescriptorProto{Name: proto.String(fmt.Sprintf("Svc%d_%d", idx, si))}
 			nm := 1 + t.Draw("rs.nmethods", 4)
 			for mi := 0; mi < nm; mi++ {
-				in, _ := g.pickMsg(idx)
-				out, _ := g.pickMsg(idx)
+				in, _ := g.pickForeignMsg(idx)
+				out, _ := g.pickForeignMsg(idx)
 				m := &descriptorpb.MethodDescriptorProto{Name: proto.String(fmt.Sprintf("Call%d", mi)), InputType: proto.String(in), OutputType: proto.String(out)}
 				switch t.Draw("rs.streaming", 4) {
 				case 1:
@@ -324,6 +328,22 @@ func (g *randomGen) pickMsg(file int) (string, bool) {
 		return "", false
 	}
 	return c[g.t.Draw("rs.msgref", len(c))], true
+}
+
+// pickForeignMsg prefers a message of another file's Go package (service
+// request/response types often live elsewhere and are used nowhere else in
+// the file that declares the service).
+func (g *randomGen) pickForeignMsg(file int) (string, bool) {
+	var c []string
+	for _, m := range g.msgs {
+		if m.file != file && g.visible(file, m.file) && g.filePkg[m.file] != g.filePkg[file] {
+			c = append(c, m.full)
+		}
+	}
+	if len(c) == 0 || g.t.Chance("rs.svclocal", 1, 3) {
+		return g.pickMsg(file)
+	}
+	return c[g.t.Draw("rs.msgrefforeign", len(c))], true
 }
 
 func (g *randomGen) pickEnum(file int) (string, bool) {
